@@ -610,6 +610,48 @@ fn extra_legs(acc: &mut Acc) {
             _ => {}
         }
     }
+    // ---- (6) a validly signed link altered after signing: every leaf of its signed part x every
+    // small edit (re-spelled strings, wrapped integers, null <-> empty, member removed), one at a time.
+    // Unless the edited file reads back as the very same link, it must not count.
+    let lay1 = world::sign_layout(world::layout(vec![world::step("s0", 1, &[a])], vec![], &[a], world::far_future()), &[owner]);
+    for (lname, l) in world::sample_links("s0") {
+        let original = world::sign_link(l, &[a]);
+        let v0 = world::block_value(&original);
+        // the unaltered file must count (otherwise the leg decides nothing)
+        clear(&dir);
+        world::write(&dir, &world::link_file("s0", a), &v0.to_string());
+        if !world::verify(&lay1, world::owner_map(&[owner]), &dir).is_ok() {
+            acc.violation("altered-leg:unaltered-link-rejected", "the unaltered link of the leaf-edit leg does not satisfy its step (machinery or library problem)", || json!({"kind": "altered-after-signing", "link": lname, "edit": null}));
+            continue;
+        }
+        for e in crate::tamper::edits(&v0["signed"]) {
+            let mut v = v0.clone();
+            if !crate::tamper::apply(&mut v["signed"], &e) {
+                continue;
+            }
+            acc.evaluations += 1;
+            acc.traces += 1;
+            acc.nontrivial += 1;
+            acc.states += 1;
+            // "the same link" is decided on the JSON data by a reference table; what the library's
+            // reader makes of the edited file is only recorded
+            let reads_same = matches!(world::block_from_value(&v), Ok(ref back) if back.metadata == original.metadata);
+            let same = crate::tamper::keeps_link_content(&e, &v0["signed"]);
+            if reads_same && !same {
+                acc.note("edited-link-reads-back-as-the-signed-one(lossy reader)");
+            }
+            clear(&dir);
+            world::write(&dir, &world::link_file("s0", a), &v.to_string());
+            let verdict = world::verify(&lay1, world::owner_map(&[owner]), &dir);
+            acc.outcome(&format!("altered|{}|{}", if same { "same-content" } else { "differs" }, verdict.tag()));
+            let w = || json!({"kind": "altered-after-signing", "link": lname, "edit": e});
+            match &verdict {
+                Verdict::Ok(_) if !same => acc.violation(&format!("counted:altered-after-signing:{}", crate::tamper::kind_of(&e)), &format!("a link whose signed part was edited after signing ({e}) and no longer reads back as the link that was signed still counted towards its step"), w),
+                Verdict::Panic(l, m) => acc.violation(&format!("panic:{l}"), &format!("verification panicked at {l}: {m}"), w),
+                _ => {}
+            }
+        }
+    }
 }
 
 pub fn run(tier: Tier) -> i32 {
@@ -642,7 +684,7 @@ pub fn run(tier: Tier) -> i32 {
     acc.transitions += tr2;
     bound += &format!("; 2 steps: BFS depth {depth2} = {} populations x {} layouts", states2.len(), specs2.len());
     extra_legs(&mut acc);
-    bound += "; misfiled evidence: 9 file-name slots x (alone / next to a proper link) x thresholds 1,2; 9 authorised lists with a repeated id; 6 layouts that list one step name twice; one key under two ids x 4 (population, threshold) pairs";
+    bound += "; misfiled evidence: 9 file-name slots x (alone / next to a proper link) x thresholds 1,2; 9 authorised lists with a repeated id; 6 layouts that list one step name twice; one key under two ids x 4 (population, threshold) pairs; altered after signing: 3 links (rich / failed command with empty environment / bare) x every leaf of the signed part x every small edit (strings re-spelled, integers +-1, negated, +2^8..+2^63, -2^32, null <-> empty, member removed)";
     c.acc = acc;
     c.bound_completed = bound;
     c.rule = "state = link-directory population: per (step, functionary in {A,B in key table; C not in key table; D in key table}) one of absent / tampered / sublayout / garbage / a link with one or two signature entries over {own-valid, own-invalid, other-valid, other-invalid, unrelated-valid} in every order (34 cells); transition = set one cell; every state is run through in_toto_verify for every layout (authorised subset x threshold); non-trivial = population with at least one non-valid file".into();
@@ -656,7 +698,7 @@ pub fn replay(case: &Value) -> Value {
     if case.get("kind").is_some() {
         let mut acc = Acc::new();
         extra_legs(&mut acc);
-        return json!({"note": "the three small legs are re-run as a whole", "violations": acc.violations.keys().collect::<Vec<_>>(), "violation": acc.violations.keys().next()});
+        return json!({"note": "the small legs are re-run as a whole", "violations": acc.violations.keys().collect::<Vec<_>>(), "violation": acc.violations.keys().next()});
     }
     let steps = case["steps"].as_array().cloned().unwrap_or_default();
     let mut spec = LayoutSpec { steps: vec![] };
